@@ -129,17 +129,17 @@ static std::vector<OracleRes> emitOracle(const std::vector<vs::DPoly> &shapesNow
 
 // own-graph certificates for the connectors whose route is dearer than the oracle optimum (penalty > 0)
 static void emitOwn(const own::Graph &g, const std::vector<std::pair<long, long> > &ends, const std::vector<ConnSpec> &cs,
-                    const std::vector<double> &implCost, const std::vector<OracleRes> &orc, double penalty) {
+                    const std::vector<double> &implCost, const std::vector<OracleRes> &orc, double penalty, bool dumped = false) {
     if (penalty <= 0) return;
     bool any = false;
     for (size_t i = 0; i < cs.size(); ++i) if (implCost[i] > orc[i].best + 1e-7) any = true;
     if (!any) return;
-    own::dump(g);
+    if (!dumped) own::dump(g);
     for (size_t i = 0; i < cs.size(); ++i) if (implCost[i] > orc[i].best + 1e-7) own::emitCert(g, cs[i].id, ends[i].first, ends[i].second, penalty);
 }
 
 // one case: inputs, libavoid run, oracle certificate
-static void runCase(long k, const std::string &tag, const vs::Scene &s, const std::vector<ConnSpec> &cs, bool lee, double penalty, bool ignoreRegions) {
+static void runCase(long k, const std::string &tag, const vs::Scene &s, const std::vector<ConnSpec> &cs, bool lee, double penalty, bool ignoreRegions, bool astar = false) {
     vh::beginCase(k, tag.c_str());
     printf("cfg lee %d penalty %s ignoreRegions %d\n", (int) lee, vh::hx(penalty).c_str(), (int) ignoreRegions);
     for (size_t i = 0; i < s.shapes.size(); ++i) vs::printShape((unsigned) (i + 1), s.shapes[i]);
@@ -153,7 +153,10 @@ static void runCase(long k, const std::string &tag, const vs::Scene &s, const st
     for (size_t i = 0; i < s.shapes.size(); ++i) { Polygon p = vs::toAvoid(s.shapes[i]); new ShapeRef(router, p, (unsigned) (i + 1)); }
     std::vector<ConnRef *> crs;
     for (auto &c : cs) crs.push_back(new ConnRef(router, ConnEnd(Point(c.sx, c.sy)), ConnEnd(Point(c.dx, c.dy)), c.id));
+    own::PopTap tap;
+    if (astar) router->setDebugHandler(&tap);
     router->processTransaction();
+    if (astar) router->setDebugHandler(nullptr);
     std::vector<double> implCost; std::vector<std::pair<long, long> > ends;
     for (size_t i = 0; i < crs.size(); ++i) {
         vs::printPts("route", cs[i].id, crs[i]->route().ps);
@@ -161,10 +164,15 @@ static void runCase(long k, const std::string &tag, const vs::Scene &s, const st
         implCost.push_back(own::routeCost(crs[i]->displayRoute().ps, penalty));
     }
     own::Graph g;
-    if (penalty > 0) { g = own::read(router); for (size_t i = 0; i < crs.size(); ++i) ends.push_back(std::make_pair(g.idx[crs[i]->src()], g.idx[crs[i]->dst()])); }
+    if (penalty > 0 || astar) { g = own::read(router); for (size_t i = 0; i < crs.size(); ++i) ends.push_back(std::make_pair(g.idx[crs[i]->src()], g.idx[crs[i]->dst()])); }
     delete router;
     std::vector<OracleRes> orc = emitOracle(s.shapes, cs, penalty);
-    emitOwn(g, ends, cs, implCost, orc, penalty);
+    bool dumped = false;
+    if (astar) {
+        own::dump(g); own::dumpAdj(g); dumped = true;
+        for (size_t i = 0; i < cs.size(); ++i) own::emitAStar(g, tap, cs[i].id, ends[i].first, ends[i].second);
+    }
+    emitOwn(g, ends, cs, implCost, orc, penalty, dumped);
     vh::endCase();
 }
 
@@ -581,10 +589,11 @@ int main(int argc, char **argv) {
     //      In such scenes a search state (vertex, previous vertex) is typically first reached with a bend and later again,
     //      cheaper, along the collinear leg: the open list has to be re-ordered after an in-place cost decrease.
     //      Both directions of the connector are routed.
-    long nct = (thorough ? 450 : 130) * a.scale;
+    long nct = (thorough ? 150 : 40) * a.scale;
     for (long c = 0; c < nct; ++c, ++k) {
         if (!a.want(k)) continue;
-        vh::Rng r = vh::caseRng(a.seed, k, 29);
+        vh::Rng r0 = vh::caseRng(a.seed, k, 29);
+        vh::Rng r(r0.next() * 0x2545F4914F6CDD1Dull ^ r0.next());     // re-seeded from mixed outputs: the streams of caseRng for k and k + 1 are shifts of each other
         vs::Scene s; std::vector<ConnSpec> cs; double penalty = 0; bool through = false;
         for (int tries = 0; tries < 80 && !through; ++tries) {
             long G = r.range(8, 14), U = std::vector<long>{1, 2, 4}[r.range(0, 2)];
@@ -616,7 +625,7 @@ int main(int argc, char **argv) {
             through = orc[0].throughCorner || orc[1].throughCorner;
         }
         if (cs.empty()) { vh::beginCase(k, "empty"); vh::endCase(); continue; }
-        runCase(k, through ? "corner-through-pen" : "corner-grid-pen", s, cs, true, penalty, r.coin(1, 2));
+        runCase(k, through ? "corner-through-pen" : "corner-grid-pen", s, cs, true, penalty, r.coin(1, 2), true);
     }
     // ---- corner-chain class (penalty > 0, Lee visibility; small scenes, hence small open lists): constructed around an exact
     //      alignment T - v - p on a grid line of direction (a, b): v is a corner of a rectangle Rv next to the target T, p a
@@ -625,30 +634,32 @@ int main(int argc, char **argv) {
     //      no bend at v, while the other way round Rp (via another corner q of Rp) reaches v earlier but pays a bend at v:
     //      the state (T, via v) is queued first from (v, via q) and later improved in place from (v, via p).  The source
     //      lies beyond Rp; 0..3 further random rectangles supply competing routes.  Both directions are routed.
-    long ncc = (thorough ? 600 : 200) * a.scale;
+    long ncc = (thorough ? 900 : 300) * a.scale;
     for (long c = 0; c < ncc; ++c, ++k) {
         if (!a.want(k)) continue;
-        vh::Rng r = vh::caseRng(a.seed, k, 31);
+        vh::Rng r0 = vh::caseRng(a.seed, k, 31);
+        vh::Rng r(r0.next() * 0x2545F4914F6CDD1Dull ^ r0.next());     // re-seeded from mixed outputs: the streams of caseRng for k and k + 1 are shifts of each other
         vs::Scene s; std::vector<ConnSpec> cs; double penalty = 0; bool built = false;
         for (int tries = 0; tries < 200 && !built; ++tries) {
             static const long dirs[][2] = {{1, 1}, {1, 1}, {2, 1}, {1, 2}, {3, 1}, {1, 3}, {3, 2}, {2, 3}, {1, 0}, {0, 1}};
             long di = r.range(0, 9), da = dirs[di][0], db = dirs[di][1];
             long U = std::vector<long>{1, 2, 4, 10}[r.range(0, 3)];
-            penalty = (double) U * std::vector<double>{0.5, 1, 2, 3, 4, 6, 10}[r.range(0, 6)];
+            penalty = (double) U * std::vector<double>{0.5, 1, 2, 3, 4, 6, 10, 3, 6}[r.range(0, 8)];
             long i = r.range(1, 2), j = r.range(1, 5);
             long vx = i * da, vy = i * db, px = (i + j) * da, py = (i + j) * db;
             if (px > 14 || py > 14) continue;
             struct B { long x0, y0, x1, y1; };
             std::vector<B> bs;
             // a rectangle with a corner at (cx, cy) that the line through it with direction (da, db) only touches
-            auto cornerBox = [&](long cx, long cy, B &b) {
+            // (both rectangles on the same side of the line, or - one time in four - on opposite sides)
+            int side = (int) r.range(0, 1), side2 = r.coin(3, 4) ? side : 1 - side;
+            auto cornerBox = [&](long cx, long cy, int q, B &b) {
                 long w = r.range(1, 3), h = r.range(1, 3);
-                int q = (int) r.range(0, 1);
                 if (da > 0 && db > 0) { if (q) b = B{cx, cy - h, cx + w, cy}; else b = B{cx - w, cy, cx, cy + h}; }
                 else if (db == 0) { long x0 = r.coin() ? cx : cx - w; if (q) b = B{x0, cy, x0 + w, cy + h}; else b = B{x0, cy - h, x0 + w, cy}; }
                 else { long y0 = r.coin() ? cy : cy - h; if (q) b = B{cx, y0, cx + w, y0 + h}; else b = B{cx - w, y0, cx, y0 + h}; }
             };
-            B bv, bp; cornerBox(vx, vy, bv); cornerBox(px, py, bp);
+            B bv, bp; cornerBox(vx, vy, side, bv); cornerBox(px, py, side2, bp);
             bs.push_back(bv); bs.push_back(bp);
             // target on the line beyond v; source in the shadow that Rp casts as seen from v (so that v is reached round Rp,
             // via p on the line or via the opposite silhouette corner q), preferably where the way via q is the shorter one
@@ -656,7 +667,7 @@ int main(int argc, char **argv) {
             long tx = 0, ty = 0;
             if (r.coin(1, 3)) { tx = -da * r.range(0, 1); ty = -db * r.range(0, 1); }
             std::vector<LPt> rp; rp.push_back(LPt{bp.x1, bp.y0}); rp.push_back(LPt{bp.x1, bp.y1}); rp.push_back(LPt{bp.x0, bp.y1}); rp.push_back(LPt{bp.x0, bp.y0});
-            std::vector<std::pair<long, long> > cand, good;
+            std::vector<std::pair<long, long> > cand, good; std::vector<double> gap;
             for (long x = bp.x0 - 4; x <= bp.x1 + 6; ++x) for (long y = bp.y0 - 4; y <= bp.y1 + 6; ++y) {
                 if (x >= bp.x0 && x <= bp.x1 && y >= bp.y0 && y <= bp.y1) continue;
                 if (!segHitsInteriorL(rp, LPt{x, y}, LPt{vx, vy})) continue;
@@ -665,9 +676,15 @@ int main(int argc, char **argv) {
                 double best = 1e300;
                 for (auto &q : rp) if (!(q.x == px && q.y == py) && !segHitsInteriorL(rp, LPt{x, y}, q) && !segHitsInteriorL(rp, q, LPt{vx, vy}))
                     best = std::min(best, std::hypot((double) (x - q.x), (double) (y - q.y)) + std::hypot((double) (q.x - vx), (double) (q.y - vy)));
-                if (best < dp && dp < best + penalty / (double) U) good.push_back(std::make_pair(x, y));
+                if (best < dp && dp < best + penalty / (double) U) { good.push_back(std::make_pair(x, y)); gap.push_back(dp - best); }
             }
             if (cand.empty()) continue;
+            if (good.size() > 3 && r.coin(2, 3)) {      // prefer the sources where the two ways round Rp are nearly equally long
+                std::vector<size_t> ix; for (size_t x = 0; x < good.size(); ++x) ix.push_back(x);
+                std::sort(ix.begin(), ix.end(), [&](size_t x, size_t y) { return gap[x] < gap[y] || (gap[x] == gap[y] && x < y); });
+                std::vector<std::pair<long, long> > g3; for (size_t x = 0; x < 3; ++x) g3.push_back(good[ix[x]]);
+                good = g3;
+            }
             std::pair<long, long> sp = (!good.empty() && r.coin(5, 6)) ? r.pick(good) : r.pick(cand);
             long sx = sp.first, sy = sp.second;
             // a competing one-bend route s -> u -> T round a further rectangle Ru with a corner at u, its length between that
@@ -678,7 +695,7 @@ int main(int argc, char **argv) {
                 double dp = H(sx, sy, px, py) + H(px, py, vx, vy) + H(vx, vy, tx, ty), dq = 1e300;
                 for (auto &q : rp) if (!(q.x == px && q.y == py) && !segHitsInteriorL(rp, LPt{sx, sy}, q) && !segHitsInteriorL(rp, q, LPt{vx, vy}))
                     dq = std::min(dq, H(sx, sy, q.x, q.y) + H(q.x, q.y, vx, vy) + H(vx, vy, tx, ty));
-                double wlo = std::min(dp, dq), whi = std::max(dp, dq) + penalty / (double) U;
+                double wlo = dp, whi = std::max(dp, dq) + penalty / (double) U;
                 std::vector<B> cu;
                 std::vector<LPt> rv = boxOf(bv);
                 for (long x = -6; x <= 18; ++x) for (long y = -6; y <= 18; ++y) {
@@ -687,18 +704,24 @@ int main(int argc, char **argv) {
                     if (segHitsInteriorL(rp, LPt{sx, sy}, LPt{x, y}) || segHitsInteriorL(rp, LPt{x, y}, LPt{tx, ty}) ||
                         segHitsInteriorL(rv, LPt{sx, sy}, LPt{x, y}) || segHitsInteriorL(rv, LPt{x, y}, LPt{tx, ty})) continue;
                     for (int qd = 0; qd < 4; ++qd) {
-                        long w = r.range(1, 2), h = r.range(1, 2);
+                        long w = r.range(1, 3), h = r.range(1, 3);
                         B b = (qd == 0) ? B{x, y, x + w, y + h} : (qd == 1) ? B{x - w, y, x, y + h} : (qd == 2) ? B{x - w, y - h, x, y} : B{x, y - h, x + w, y};
                         std::vector<LPt> ru = boxOf(b);
-                        // the rectangle lies inside the bend: the chord s - T crosses it, the two legs do not
-                        if (!segHitsInteriorL(ru, LPt{sx, sy}, LPt{tx, ty})) continue;
+                        // the rectangle lies inside the bend, the two legs do not enter it
+                        {   // twice the centre of Ru lies strictly inside the wedge s - u - T
+                            LPt c2 = LPt{b.x0 + b.x1, b.y0 + b.y1}, s2 = LPt{2 * sx, 2 * sy}, u2 = LPt{2 * x, 2 * y}, t2 = LPt{2 * tx, 2 * ty};
+                            i64 turn = area2L(s2, u2, t2);
+                            if (turn == 0) continue;
+                            i64 a1 = area2L(s2, u2, c2), a2 = area2L(u2, t2, c2);
+                            if (!((turn > 0 && a1 > 0 && a2 > 0) || (turn < 0 && a1 < 0 && a2 < 0))) continue;
+                        }
                         if (segHitsInteriorL(ru, LPt{sx, sy}, LPt{x, y}) || segHitsInteriorL(ru, LPt{x, y}, LPt{tx, ty})) continue;
                         // it leaves the routes round Rp alone
                         if (segHitsInteriorL(ru, LPt{sx, sy}, LPt{px, py}) || segHitsInteriorL(ru, LPt{px, py}, LPt{vx, vy}) || segHitsInteriorL(ru, LPt{vx, vy}, LPt{tx, ty})) continue;
                         cu.push_back(b);
                     }
                 }
-                int ncomp = (int) r.range(1, 3);
+                int ncomp = (int) r.range(1, 4);
                 for (int e = 0; e < ncomp && !cu.empty(); ++e) {
                     B b = r.pick(cu);
                     bool sep = true;
@@ -739,7 +762,7 @@ int main(int argc, char **argv) {
             built = true;
         }
         if (!built) { vh::beginCase(k, "empty"); vh::endCase(); continue; }
-        runCase(k, "corner-chain-pen", s, cs, true, penalty, r.coin(2, 3));
+        runCase(k, "corner-chain-pen", s, cs, true, penalty, r.coin(2, 3), true);
     }
     return 0;
 }
